@@ -238,13 +238,13 @@ _TRANS = {
 }
 # clauses of the properties stated directly of the translated source (Gws/Props/TransProps.lean)
 _TPROPS = {
-    "C03": ["TransProps.header_violation_1002", "TransProps.header_fields"],
-    "C13": ["TransProps.oversize_frame_1009"],
+    "C03": ["TransProps.header_violation_1002", "TransProps.header_fields", "TransProps.control_frame_violation_1002", "TransProps.fragmentation_violation_1002"],
+    "C13": ["TransProps.oversize_frame_1009", "TransProps.oversize_fragments_1009", "TransProps.inflate_failure_1011"],
     "C04": ["TransProps.oversize_frame_1009"],
     "C05": ["TransProps.genFrame_decodes", "TransProps.local_close_body"],
     "C06": ["TransProps.close_reply_table", "TransProps.close_reply_short", "TransProps.local_close_body"],
     "C12": ["TransProps.server_bits_in_range", "TransProps.client_bits_in_range"],
-    "C16": ["TransProps.gate_text", "TransProps.gate_binary_never", "TransProps.gate_off_never"],
+    "C16": ["TransProps.gate_text", "TransProps.gate_binary_never", "TransProps.gate_off_never", "TransProps.invalid_text_1007"],
     "C17": ["TransProps.window_is_suffix", "TransProps.disabled_window_stays_empty"],
     "C01": ["TransProps.frame_delivered_end_to_end", "TransProps.frame_delivered_compressed_end_to_end"],
     "C02": ["TransProps.frame_delivered_compressed_end_to_end"],
